@@ -361,6 +361,24 @@ func (c *Connection) Retire(ac *AsyncCall, err error) {
 	})
 }
 
+// Abandon begins closing the connection like Close (no new calls are started or
+// accepted), but instead of waiting for the outgoing calls that are still in
+// flight it reports err as their terminal error. It does not wait; follow it
+// with Close.
+//
+// It is meant for a peer that is known to be unresponsive: responses that will
+// never arrive would otherwise keep Close waiting for as long as the callers'
+// contexts live.
+func (c *Connection) Abandon(err error) {
+	c.updateInFlight(func(s *inFlightState) {
+		s.connClosing = true
+		for id, ac := range s.outgoingCalls {
+			ac.retire(&Response{ID: id, Error: err})
+		}
+		clear(s.outgoingCalls)
+	})
+}
+
 // Async, signals that the current jsonrpc2 request may be handled
 // asynchronously to subsequent requests, when ctx is the request context.
 //
